@@ -569,7 +569,9 @@ class Machine:
             if full in listing or (full in listing_initial and st.sync == "stale" and not st.dval and st.U == "undef"):
                 return st.copy(U="undef" if st.U == "undef" else "stale", sync="ok")
             if vt in ("np.array([],dtype='int')", 'np.array([],dtype="int")', "np.zeros(0,dtype=int)"):
-                if st.sync != "ok":
+                # empty list: in step with P when P is empty (sync ok at the start), and in the `warm` state exactly on the branch where P_initial is empty - which is what
+                # `warm` already means (the branch on P_initial decides: non-empty -> stale until the list is rebuilt, empty -> ok)
+                if st.sync not in ("ok", "warm"):
                     self.fail(n, "the ordered passive list is emptied while P is not known to be empty", st)
                 return st.copy(U="undef")
             self.fail(n, "`P_inorder` assigned from an unrecognised expression (it must list exactly the indices where P is True)", st, undecided=True)
@@ -587,7 +589,10 @@ class Machine:
                 return st.copy(sync="stale", pos=False, dval=False)
             if base == "s_chol":
                 if idx == "P":
-                    ok = isinstance(v, ast.Call) and norm_text(v.func) == "lstsq" and [norm_text(a).replace(" ", "") for a in v.args] in (["(ZTZ)[P][:,P]", "(ZTx)[P]"], ["ZTZ[P][:,P]", "ZTx[P]"])
+                    # the symmetric positive-definite solve on the passive block: through the local `lstsq` lambda or written out (slg.solve(A, x, assume_a='pos', ...))
+                    solver = isinstance(v, ast.Call) and (norm_text(v.func) == "lstsq" or (norm_text(v.func) in ("slg.solve", "scipy.linalg.solve", "linalg.solve", "np.linalg.solve")
+                                                                                            and all(k.arg in ("assume_a", "overwrite_a", "overwrite_b", "check_finite") for k in v.keywords)))
+                    ok = solver and [norm_text(a).replace(" ", "") for a in v.args] in (["(ZTZ)[P][:,P]", "(ZTx)[P]"], ["ZTZ[P][:,P]", "ZTx[P]"])
                     if not ok:
                         self.fail(n, "the least-squares solution on P must be lstsq(ZTZ[P][:, P], ZTx[P])", st)
                     return st.copy(pos=False)
